@@ -6,8 +6,13 @@ dir=$(readlink -f "$1"); shift
 here=$(dirname "$0")
 ids=("$@"); [ ${#ids[@]} -eq 0 ] && ids=($(ls "$dir" | grep -E '^C[0-9]+$'))
 for id in "${ids[@]}"; do
+  if [ ! -f "$dir/$id/patch.diff" ] && [ -d "$dir/$id/a" ]; then
+    # a delivery with two changes: <id>/a and <id>/b
+    "$0" "$dir" "$id/a" "$id/b"
+    continue
+  fi
   [ -f "$dir/$id/patch.diff" ] || { echo "## $id: no delivery yet"; continue; }
   echo "## $id"
   "$here/confirm_seeded.sh" "$dir/$id" 2>&1 | grep -E "^demo on unchanged|PATCH DOES NOT" | cut -c1-200
-  "$here/trymutant.sh" "$dir/$id/patch.diff" "$id" 2>&1 | grep -E "^C[0-9]+ exit|DOES NOT|^    \(|^        \(" | head -5 | cut -c1-260
+  "$here/trymutant.sh" "$dir/$id/patch.diff" "${id%%/*}" 2>&1 | grep -E "^C[0-9]+ exit|DOES NOT|^    \(|^        \(" | head -5 | cut -c1-260
 done
